@@ -104,6 +104,7 @@ func cmdCheck(args []string) {
 		fmt.Fprintln(os.Stderr, "no configuration for", id)
 		os.Exit(2)
 	}
+	os.RemoveAll(filepath.Join(verifDir, "replays", id))
 	w, err := setup()
 	if err != nil {
 		fmt.Fprintln(os.Stderr, "setup failed:", err)
